@@ -77,7 +77,28 @@ pub fn gen_history(rng: &mut Rng, max_symbols: u64, with_removal: bool) -> Sende
     SenderScn { spec, objects, ops, poll, snapshots: false }
 }
 
+/// One object with MANY source blocks (block numbers beyond 8 bits / beyond the receiver's preallocation).
+pub fn gen_many_blocks(rng: &mut Rng) -> SenderScn {
+    let mut spec = SenderSpec::basic(OtiSpec::new(Scheme::NoCode, 1400, 64, 0, true));
+    spec.interleave = rng.range(1, 4) as u8;
+    spec.queues = vec![(0, 1)];
+    let (scheme, e, b, blocks) = match rng.below(3) {
+        0 => (Scheme::Raptor, *rng.pick(&[1u16, 2, 4]), 4u32, rng.range(257, 300)),
+        1 => (Scheme::NoCode, *rng.pick(&[1u16, 2, 16]), 1u32, rng.range(4098, 4300)),
+        _ => (Scheme::Rs28Us, *rng.pick(&[1u16, 4]), *rng.pick(&[1u32, 2]), rng.range(257, 700)),
+    };
+    let len = (blocks * b as u64 * e as u64 - rng.range(0, e as u64 - 1)) as usize;
+    let mut o = ObjectSpec::basic(len, rng.next_u64(), 0);
+    o.oti = Some(OtiSpec::new(scheme, e, b, if scheme == Scheme::NoCode { 0 } else { 1 }, rng.chance(0.5)));
+    let ops = vec![TimedOp { when: When::AtUs(0), op: Op::Add(0) }, TimedOp { when: When::AtUs(0), op: Op::Publish }];
+    let poll = PollSpec { start_us: 0, gap: GapSpec::FixedUs(1000), burst: None, max_polls: 200, max_pkts: 12_000, idle_polls_after_done: 1 };
+    SenderScn { spec, objects: vec![o], ops, poll, snapshots: false }
+}
+
 pub fn gen(rng: &mut Rng, tier: Tier) -> Scn {
+    if rng.chance(0.006) {
+        return Scn { sender: gen_many_blocks(rng) };
+    }
     Scn { sender: gen_history(rng, if tier == Tier::Quick { 120 } else { 600 }, true) }
 }
 
